@@ -63,3 +63,13 @@ Theorem if_scoped : forall (P : program) (env : list clause) (rho : list ty) (hs
 Proof. exact EnvElab.if_scoped. Qed.
 Check if_scoped : forall (P : program) (env : list clause) (rho : list ty) (hs : list hyp) (g1 g2 : goal),
   sat P env rho (GAnd (GIf hs g1) g2) <-> (sat P (map (inst_hyp rho) hs ++ env) rho g1 /\ sat P env rho g2).
+
+Theorem sat_if_and_exact : forall (fuel : nat) (s : rsys) (rho : list ty) (hs : list hyp) (g1 g2 : goal) (b : bool),
+  eval_if_and fuel s rho hs g1 g2 = Some b ->
+  (b = true <-> sat (full_program s) [] rho (GAnd (GIf hs g1) g2)) /\
+  (b = true <-> sat (full_program s) [] rho (GAnd g2 (GIf hs g1))).
+Proof. exact EnvElab.sat_if_and_exact. Qed.
+Check sat_if_and_exact : forall (fuel : nat) (s : rsys) (rho : list ty) (hs : list hyp) (g1 g2 : goal) (b : bool),
+  eval_if_and fuel s rho hs g1 g2 = Some b ->
+  (b = true <-> sat (full_program s) [] rho (GAnd (GIf hs g1) g2)) /\
+  (b = true <-> sat (full_program s) [] rho (GAnd g2 (GIf hs g1))).
